@@ -136,6 +136,26 @@ func runCase(t *testing.T) func(Case) pbt.Result {
 					return
 				}
 			}
+			// (1b) a sync that reported success finished its work: everything from its head down to the start of the
+			// chain is stored (an explicit sync that Close lets finish may not stop early and call it a success)
+			for _, o := range e.Ops {
+				if o.Kind != "sync" || !o.Done() || o.Err != nil || !o.Cid.Defined() {
+					continue
+				}
+				p := e.Pubs[o.P]
+				at := -1
+				for i, ci := range p.Chain {
+					if ci == o.Cid {
+						at = i
+					}
+				}
+				for i := 0; i <= at; i++ {
+					if !e.S.Has(p.Chain[i]) {
+						viol = fmt.Sprintf("explicit sync of publisher %d issued at step %d returned the head at position %d without error, but the advertisement at position %d is not stored: the sync stopped early and reported success", o.P, o.Step, at, i)
+						return
+					}
+				}
+			}
 			// (4) every call made after Close returned came back with an error or an empty result
 			for _, o := range e.Ops {
 				switch o.Kind {
@@ -248,7 +268,7 @@ func render(c Case) string {
 
 func TestC15_Scripts(t *testing.T) {
 	pbt.Run(t, pbt.Config{Prop: "C15", Unit: "TestC15_Scripts", TrackCurrent: true,
-		Rule: "scripts over 1..3 publishers, one real subscriber and 0..5 listeners: publish, announce, announce with unusable sender addresses, explicit sync, explicit entries sync, let the virtual clock pass the idle-handler TTL (also while a sync is parked), hold / open a gate (so that explicit and announce-triggered syncs are parked at any request), register / cancel / read listeners; Close is called 1..3 times (concurrently when the first has not returned) at a drawn point; the remaining steps and drawn post-close calls (SyncAdChain, SyncEntries, Announce, OnSyncFinished, GetLatestSync, RemoveHandler, Close) follow; then all gates open and exact quiescence is reached; oracle: every call returned (none durably blocked at quiescence); explicit syncs that were running when Close was called finished successfully; from the moment the first Close returned no hook call, store write or notification happened (world counters frozen, sampled after every step); every listener channel is closed; Close returns nil every time; sync calls issued after Close returned fail; no panic; the bubble drains to zero goroutines. Non-trivial: Close overlapped a held sync, >= 2 concurrent closers, or a call after Close returned; distinct by case.",
+		Rule: "scripts over 1..3 publishers, one real subscriber and 0..5 listeners: publish, announce, announce with unusable sender addresses, explicit sync, explicit entries sync, let the virtual clock pass the idle-handler TTL (also while a sync is parked), hold / open a gate (so that explicit and announce-triggered syncs are parked at any request), register / cancel / read listeners; Close is called 1..3 times (concurrently when the first has not returned) at a drawn point; the remaining steps and drawn post-close calls (SyncAdChain, SyncEntries, Announce, OnSyncFinished, GetLatestSync, RemoveHandler, Close) follow; then all gates open and exact quiescence is reached; oracle: every call returned (none durably blocked at quiescence); explicit syncs that were running when Close was called finished successfully, and every explicit sync that reported success stored its whole chain (also when segmented); from the moment the first Close returned no hook call, store write or notification happened (world counters frozen, sampled after every step); every listener channel is closed; Close returns nil every time; sync calls issued after Close returned fail; no panic; the bubble drains to zero goroutines. Non-trivial: Close overlapped a held sync, >= 2 concurrent closers, or a call after Close returned; distinct by case.",
 		Assumptions: []string{"requests of a cancelled sync may still reach the server after Close (net/http write loop); request arrivals are not part of the post-close silence oracle"},
 	}, genCase, runCase(t))
 }
